@@ -56,7 +56,9 @@ pub fn check(d: &AdjacencyMap, m: &Model, o: &mut CaseOut) -> usize {
         let again = j.circuits();
         o.check(again == got, "circuits-differ-on-second-call", || crate::ctx::clip(&format!("first {got:?} second {again:?}")));
         let cloned = cl.circuits();
-        let mut x = Johnson75::new(d);
+        // the destination was created for ANOTHER digraph and has been used
+        let other = AdjacencyMap::cycle(m.n().max(2) + 1);
+        let mut x = Johnson75::new(&other);
         let _ = x.circuits();
         x.clone_from(&Johnson75::new(d));
         let via = x.circuits();
